@@ -102,6 +102,14 @@ def split_atoms(s, sep):
     return [mkstr(SStr(p)) for p in pieces]
 
 
+class Indexed(object):
+    """item returned by a loop-hook setup: bound as (index, value) when the loop iterates enumerate(...), as the value alone
+    otherwise - so that a loop may gain or lose its counter without the unit having to know"""
+
+    def __init__(self, index, value):
+        self.index, self.value = index, value
+
+
 def install_loop_body_hook(it, func_name, ordinal, setup):
     """Fold rule (DESIGN.md 2.3 d): when the interpreter reaches loop `ordinal` of function
     `func_name`, `setup(env, ctx, iterable)` havocs the loop-carried variables and returns the
@@ -113,6 +121,10 @@ def install_loop_body_hook(it, func_name, ordinal, setup):
     def hook(interp, env, node, iterable):
         ctx = Ctx.current
         item = setup(env, ctx, iterable)
+        if isinstance(item, Indexed):
+            import ast as _ast
+            enum = isinstance(node.iter, _ast.Call) and isinstance(node.iter.func, _ast.Name) and node.iter.func.id == "enumerate"
+            item = (item.index, item.value) if enum else item.value
         interp.assign(node.target, item, env)
         kind = "next"
         try:
